@@ -87,7 +87,7 @@ func TestInfoDuplicateKeyAcrossDictionaries(t *testing.T) {
 			}
 		}
 		d2 := writeDict(t, keys2, genValues(sp.s, len(keys2), true, 1<<20), 32767)
-		kind, _ := outcome(func() {
+		kind, detail := outcome(func() {
 			b := model.NewTrieBucket()
 			if err := b.Unmarshal(d1); err != nil {
 				panic(mismatch{err.Error()})
@@ -112,6 +112,9 @@ func TestInfoDuplicateKeyAcrossDictionaries(t *testing.T) {
 				}
 			}
 		})
+		if kind != "ok" {
+			ev.Note("duplicate-key-merge-example", detail)
+		}
 		ev.Case("TestInfoDuplicateKeyAcrossDictionaries", "", false, []string{"info:duplicate-key-merge:" + kind}, nil)
 	})
 }
